@@ -1,5 +1,5 @@
 #![allow(unused)]
-use vstd::prelude::*;
+use ::vstd::prelude::*;
     #[macro_export]
     macro_rules! quote {
         () => {
@@ -916,7 +916,7 @@ pub open spec fn bracket(inner: Toks) -> Toks { grp(Delimiter::Bracket, inner) }
 pub open spec fn nil() -> Toks { Seq::<Tok>::empty() }
 
 #[verifier::external_body]
-pub struct TokenStream { _p: core::marker::PhantomData<()> }
+pub struct TokenStream { _p: ::core::marker::PhantomData<()> }
 
 impl View for TokenStream {
     type V = Seq<Tok>;
@@ -976,7 +976,7 @@ impl<'a, T: ToTokens + ?Sized> ToTokens for &'a T {
 } // verus!
 
 pub mod __private {
-    pub use core::stringify;
+    pub use ::core::stringify;
     pub use super::__private_rep::push_all;
     pub use super::TokenStream;
     pub use super::Delimiter;
@@ -1075,7 +1075,7 @@ impl Copy for Span {}
 
 // ---------------------------------------------------------------- Ident / Index / Member (mirrors syn)
 #[verifier::external_body]
-pub struct Ident { _p: core::marker::PhantomData<()> }
+pub struct Ident { _p: ::core::marker::PhantomData<()> }
 
 impl Ident {
     pub uninterp spec fn name(&self) -> Seq<char>;
@@ -1159,8 +1159,12 @@ pub fn mk_f_ident<T: IdentFragment>(e: &T) -> (r: Ident)
 #[verifier::external_body]
 #[verifier::reject_recursive_types(T)]
 #[verifier::reject_recursive_types(P)]
-pub struct Punctuated<T, P> { _p: core::marker::PhantomData<(T, P)> }
-impl<T, P> Punctuated<T, P> { pub uninterp spec fn ptoks(&self) -> Seq<Tok>; }
+pub struct Punctuated<T, P> { _p: ::core::marker::PhantomData<(T, P)> }
+impl<T, P> Punctuated<T, P> {
+    pub uninterp spec fn ptoks(&self) -> Seq<Tok>;
+    // the elements, in order
+    pub uninterp spec fn pseq(&self) -> Seq<T>;
+}
 impl<T, P> ToTokens for Punctuated<T, P> {
     open spec fn toks(&self) -> Seq<Tok> { self.ptoks() }
     #[verifier::external_body]
@@ -1174,7 +1178,7 @@ impl<T, P> Clone for Punctuated<T, P> {
 }
 
 #[verifier::external_body]
-pub struct Path { _p: core::marker::PhantomData<()> }
+pub struct Path { _p: ::core::marker::PhantomData<()> }
 impl Path { pub uninterp spec fn ptoks(&self) -> Seq<Tok>; }
 impl ToTokens for Path {
     open spec fn toks(&self) -> Seq<Tok> { self.ptoks() }
@@ -1189,7 +1193,7 @@ impl Clone for Path {
 }
 
 #[verifier::external_body]
-pub struct Generics { _p: core::marker::PhantomData<()> }
+pub struct Generics { _p: ::core::marker::PhantomData<()> }
 impl Generics { pub uninterp spec fn ptoks(&self) -> Seq<Tok>; }
 impl ToTokens for Generics {
     open spec fn toks(&self) -> Seq<Tok> { self.ptoks() }
@@ -1200,7 +1204,7 @@ impl ToTokens for Generics {
 }
 
 #[verifier::external_body]
-pub struct AngleBracketedGenericArguments { _p: core::marker::PhantomData<()> }
+pub struct AngleBracketedGenericArguments { _p: ::core::marker::PhantomData<()> }
 impl AngleBracketedGenericArguments { pub uninterp spec fn ptoks(&self) -> Seq<Tok>; }
 impl ToTokens for AngleBracketedGenericArguments {
     open spec fn toks(&self) -> Seq<Tok> { self.ptoks() }
@@ -1215,13 +1219,13 @@ impl Clone for AngleBracketedGenericArguments {
 }
 
 #[verifier::external_body]
-pub struct WherePredicate { _p: core::marker::PhantomData<()> }
+pub struct WherePredicate { _p: ::core::marker::PhantomData<()> }
 
 } // verus!
 
 verus! {
 #[verifier::external_body]
-pub struct SynType { _p: core::marker::PhantomData<()> }
+pub struct SynType { _p: ::core::marker::PhantomData<()> }
 impl SynType { pub uninterp spec fn ptoks(&self) -> Seq<Tok>; }
 impl ToTokens for SynType {
     open spec fn toks(&self) -> Seq<Tok> { self.ptoks() }
@@ -1247,7 +1251,7 @@ verus! {
 
 #[verifier::external_body]
 #[verifier::reject_recursive_types(T)]
-pub struct Vec<T> { _p: core::marker::PhantomData<T> }
+pub struct Vec<T> { _p: ::core::marker::PhantomData<T> }
 
 impl<T> View for Vec<T> {
     type V = Seq<T>;
@@ -1276,8 +1280,8 @@ impl<T> Vec<T> {
     { unimplemented!() }
 
     #[verifier::external_body]
-    pub fn extend(&mut self, other: Vec<T>)
-        ensures final(self)@ == old(self)@ + other@,
+    pub fn extend<I: IntoIter<Item = T>>(&mut self, other: I)
+        ensures final(self)@ == old(self)@ + other.into_items(),
     { unimplemented!() }
 }
 
@@ -1297,7 +1301,7 @@ impl<T> Default for Vec<T> {
 
 #[verifier::external_body]
 #[verifier::reject_recursive_types(T)]
-pub struct Iter<'a, T> { _p: core::marker::PhantomData<&'a T> }
+pub struct Iter<'a, T> { _p: ::core::marker::PhantomData<&'a T> }
 
 impl<'a, T> View for Iter<'a, T> {
     type V = Seq<T>;
@@ -1306,7 +1310,7 @@ impl<'a, T> View for Iter<'a, T> {
 
 } // verus!
 
-// ---------------------------------------------------------------- iterator adapters (ASSUMED contracts on core::iter)
+// ---------------------------------------------------------------- iterator adapters (ASSUMED contracts on ::core::iter)
 verus! {
 
 // first element of `s` satisfying `q`
@@ -1345,29 +1349,66 @@ pub open spec fn decides<T, F: Fn(&T) -> bool>(f: F, q: spec_fn(T) -> bool) -> b
     &&& forall|t: T| #[trigger] f.ensures((&t,), false) ==> !q(t)
 }
 
+pub trait IntoIter {
+    type Item;
+    // the elements it yields when iterated
+    spec fn into_items(&self) -> Seq<Self::Item>;
+}
+
+pub trait FromIter<T>: Sized {
+    // the elements the collection was built from, in order
+    spec fn collected(&self) -> Seq<T>;
+}
+
+// concatenation of a sequence of sequences
+pub open spec fn sflat<A>(s: Seq<Seq<A>>) -> Seq<A>
+    decreases s.len(),
+{
+    if s.len() == 0 { Seq::<A>::empty() } else { s[0] + sflat(s.drop_first()) }
+}
+
 pub trait Iterator: Sized {
     type Item;
 
     // the elements still to be yielded
     spec fn items(&self) -> Seq<Self::Item>;
 
-    // core::iter::Iterator::find: the first element on which the predicate returns true
+    // ::core::iter::Iterator::find: the first element on which the predicate returns true
     fn find<P: Fn(&Self::Item) -> bool>(&mut self, predicate: P) -> (r: Option<Self::Item>)
         requires forall|t: Self::Item| #[trigger] predicate.requires((&t,)),
         ensures forall|q: spec_fn(Self::Item) -> bool| decides(predicate, q) ==> r == #[trigger] first(old(self).items(), q);
 
-    // core::iter::Iterator::filter: the subsequence on which the predicate returns true
+    // ::core::iter::Iterator::filter: the subsequence on which the predicate returns true
     fn filter<P: Fn(&Self::Item) -> bool>(self, predicate: P) -> (r: Filter<Self::Item, P>)
         requires forall|t: Self::Item| #[trigger] predicate.requires((&t,)),
         ensures forall|q: spec_fn(Self::Item) -> bool| decides(predicate, q) ==> r.fitems() == #[trigger] sfilter(self.items(), q);
 
-    // core::iter::Iterator::map
+    // ::core::iter::Iterator::map: functional form (closure computes g) and relational form (i-th output is what the
+    // closure returns on the i-th input)
     fn map<B, F: Fn(Self::Item) -> B>(self, f: F) -> (r: Map<B, F>)
-        requires forall|t: Self::Item| #[trigger] f.requires((t,)),
-        ensures forall|g: spec_fn(Self::Item) -> B| (forall|t: Self::Item, b: B| #[trigger] f.ensures((t,), b) ==> b == g(t))
-            ==> r.mitems() == #[trigger] self.items().map_values(g);
+        requires forall|i: int| 0 <= i < self.items().len() ==> f.requires((#[trigger] self.items()[i],)),
+        ensures
+            forall|g: spec_fn(Self::Item) -> B| (forall|t: Self::Item, b: B| #[trigger] f.ensures((t,), b) ==> b == g(t))
+                ==> r.mitems() == #[trigger] self.items().map_values(g),
+            r.mitems().len() == self.items().len(),
+            forall|i: int| 0 <= i < self.items().len() ==> f.ensures((self.items()[i],), #[trigger] r.mitems()[i]);
 
-    // core::iter::Iterator::any
+    // ::core::iter::Iterator::flat_map: the concatenation of what the closure yields for each element
+    fn flat_map<U: IntoIter, F: Fn(Self::Item) -> U>(self, f: F) -> (r: FlatMap<U::Item>)
+        requires forall|t: Self::Item| #[trigger] f.requires((t,)),
+        ensures forall|g: spec_fn(Self::Item) -> Seq<U::Item>|
+            (forall|t: Self::Item, u: U| #[trigger] f.ensures((t,), u) ==> u.into_items() == g(t))
+            ==> r.fmitems() == #[trigger] sflat(self.items().map_values(g));
+
+    // ::core::iter::Iterator::collect
+    fn collect<B: FromIter<Self::Item>>(self) -> (r: B)
+        ensures r.collected() == self.items();
+
+    // ::core::iter::Iterator::chain
+    fn chain<U: IntoIter<Item = Self::Item>>(self, other: U) -> (r: Chain<Self::Item>)
+        ensures r.citems() == self.items() + other.into_items();
+
+    // ::core::iter::Iterator::any
     fn any<P: Fn(Self::Item) -> bool>(&mut self, predicate: P) -> (r: bool)
         requires forall|t: Self::Item| #[trigger] predicate.requires((t,)),
         ensures forall|q: spec_fn(Self::Item) -> bool|
@@ -1375,70 +1416,332 @@ pub trait Iterator: Sized {
             ==> r == (#[trigger] first(old(self).items(), q) is Some);
 }
 
-impl<'a, T> Iterator for Iter<'a, T> {
-    type Item = &'a T;
-    open spec fn items(&self) -> Seq<&'a T> { refs(self@) }
-    #[verifier::external_body]
-    fn find<P: Fn(&Self::Item) -> bool>(&mut self, predicate: P) -> (r: Option<Self::Item>) { unimplemented!() }
-    #[verifier::external_body]
-    fn filter<P: Fn(&Self::Item) -> bool>(self, predicate: P) -> (r: Filter<Self::Item, P>) { unimplemented!() }
-    #[verifier::external_body]
-    fn any<P: Fn(Self::Item) -> bool>(&mut self, predicate: P) -> (r: bool) { unimplemented!() }
-    #[verifier::external_body]
-    fn map<B, F: Fn(Self::Item) -> B>(self, f: F) -> (r: Map<B, F>) { unimplemented!() }
+} // verus!
+
+// every iterator type of the model gets the same assumed method bodies
+macro_rules! assumed_iterator {
+    ([$($gen:tt)*] $ty:ty, $item:ty, |$s:ident| $items:expr) => { verus! {
+        impl<$($gen)*> Iterator for $ty {
+            type Item = $item;
+            open spec fn items(&self) -> Seq<$item> { let $s = self; $items }
+            #[verifier::external_body]
+            fn find<P: Fn(&Self::Item) -> bool>(&mut self, predicate: P) -> (r: Option<Self::Item>) { unimplemented!() }
+            #[verifier::external_body]
+            fn filter<P: Fn(&Self::Item) -> bool>(self, predicate: P) -> (r: Filter<Self::Item, P>) { unimplemented!() }
+            #[verifier::external_body]
+            fn map<B, F: Fn(Self::Item) -> B>(self, f: F) -> (r: Map<B, F>) { unimplemented!() }
+            #[verifier::external_body]
+            fn flat_map<U: IntoIter, F: Fn(Self::Item) -> U>(self, f: F) -> (r: FlatMap<U::Item>) { unimplemented!() }
+            #[verifier::external_body]
+            fn collect<B: FromIter<Self::Item>>(self) -> (r: B) { unimplemented!() }
+            #[verifier::external_body]
+            fn chain<U: IntoIter<Item = Self::Item>>(self, other: U) -> (r: Chain<Self::Item>) { unimplemented!() }
+            #[verifier::external_body]
+            fn any<P: Fn(Self::Item) -> bool>(&mut self, predicate: P) -> (r: bool) { unimplemented!() }
+        }
+        impl<$($gen)*> IntoIter for $ty {
+            type Item = $item;
+            open spec fn into_items(&self) -> Seq<$item> { let $s = self; $items }
+        }
+    } };
 }
+
+verus! {
 
 #[verifier::external_body]
 #[verifier::reject_recursive_types(T)]
 #[verifier::reject_recursive_types(P)]
-pub struct Filter<T, P> { _p: core::marker::PhantomData<(T, P)> }
-
-impl<T, P> Filter<T, P> {
-    pub uninterp spec fn fitems(&self) -> Seq<T>;
-}
-
-impl<T, P0> Iterator for Filter<T, P0> {
-    type Item = T;
-    open spec fn items(&self) -> Seq<T> { self.fitems() }
-    #[verifier::external_body]
-    fn find<P: Fn(&Self::Item) -> bool>(&mut self, predicate: P) -> (r: Option<Self::Item>) { unimplemented!() }
-    #[verifier::external_body]
-    fn filter<P: Fn(&Self::Item) -> bool>(self, predicate: P) -> (r: Filter<Self::Item, P>) { unimplemented!() }
-    #[verifier::external_body]
-    fn any<P: Fn(Self::Item) -> bool>(&mut self, predicate: P) -> (r: bool) { unimplemented!() }
-    #[verifier::external_body]
-    fn map<B, F: Fn(Self::Item) -> B>(self, f: F) -> (r: Map<B, F>) { unimplemented!() }
-}
-
+pub struct Filter<T, P> { _p: ::core::marker::PhantomData<(T, P)> }
+impl<T, P> Filter<T, P> { pub uninterp spec fn fitems(&self) -> Seq<T>; }
 
 #[verifier::external_body]
 #[verifier::reject_recursive_types(T)]
 #[verifier::reject_recursive_types(F)]
-pub struct Map<T, F> { _p: core::marker::PhantomData<(T, F)> }
+pub struct Map<T, F> { _p: ::core::marker::PhantomData<(T, F)> }
+impl<T, F> Map<T, F> { pub uninterp spec fn mitems(&self) -> Seq<T>; }
 
-impl<T, F> Map<T, F> {
-    pub uninterp spec fn mitems(&self) -> Seq<T>;
+#[verifier::external_body]
+#[verifier::reject_recursive_types(T)]
+pub struct FlatMap<T> { _p: ::core::marker::PhantomData<T> }
+impl<T> FlatMap<T> { pub uninterp spec fn fmitems(&self) -> Seq<T>; }
+
+#[verifier::external_body]
+#[verifier::reject_recursive_types(T)]
+pub struct Chain<T> { _p: ::core::marker::PhantomData<T> }
+impl<T> Chain<T> { pub uninterp spec fn citems(&self) -> Seq<T>; }
+
+#[verifier::external_body]
+#[verifier::reject_recursive_types(T)]
+pub struct Empty<T> { _p: ::core::marker::PhantomData<T> }
+
+} // verus!
+
+assumed_iterator!([T] Chain<T>, T, |s| s.citems());
+assumed_iterator!([T] Empty<T>, T, |s| Seq::<T>::empty());
+assumed_iterator!(['a, T] Iter<'a, T>, &'a T, |s| refs(s.view()));
+assumed_iterator!([T, P0] Filter<T, P0>, T, |s| s.fitems());
+assumed_iterator!([T, F0] Map<T, F0>, T, |s| s.mitems());
+assumed_iterator!([T] FlatMap<T>, T, |s| s.fmitems());
+
+verus! {
+
+impl<'a, T, P> IntoIter for &'a Punctuated<T, P> {
+    type Item = &'a T;
+    open spec fn into_items(&self) -> Seq<&'a T> { refs(self.pseq()) }
+}
+impl<T, P> Punctuated<T, P> {
+    #[verifier::external_body]
+    pub fn iter<'a>(&'a self) -> (r: Iter<'a, T>)
+        ensures r@ == self.pseq(), r.items() == refs(self.pseq()),
+    { unimplemented!() }
+}
+impl<T> IntoIter for Vec<T> {
+    type Item = T;
+    open spec fn into_items(&self) -> Seq<T> { self@ }
+}
+impl<T> FromIter<T> for Vec<T> {
+    open spec fn collected(&self) -> Seq<T> { self@ }
 }
 
-impl<T, F0> Iterator for Map<T, F0> {
-    type Item = T;
-    open spec fn items(&self) -> Seq<T> { self.mitems() }
+// ---------------------------------------------------------------- Option::iter (ASSUMED contract on ::core::option)
+#[verifier::external_type_specification]
+#[verifier::external_body]
+#[verifier::reject_recursive_types(T)]
+pub struct ExOptionIter<'a, T: 'a>(::core::option::Iter<'a, T>);
+
+pub uninterp spec fn opt_iter_items<'a, T>(it: ::core::option::Iter<'a, T>) -> Seq<&'a T>;
+
+pub assume_specification<'a, T> [::core::option::Option::<T>::iter] (o: &'a Option<T>) -> (r: ::core::option::Iter<'a, T>)
+    ensures opt_iter_items(r) == (match *o { Some(v) => seq![&v], None => Seq::<&T>::empty() });
+
+} // verus!
+assumed_iterator!(['a, T] ::core::option::Iter<'a, T>, &'a T, |s| opt_iter_items(*s));
+verus! {
+
+// ---------------------------------------------------------------- Peekable (ASSUMED contracts on ::core::iter::Peekable)
+#[verifier::external_body]
+#[verifier::reject_recursive_types(I)]
+pub struct Peekable<I> { _p: ::core::marker::PhantomData<I> }
+
+impl<I: Iterator> Peekable<I> {
+    // the elements still to be yielded
+    pub uninterp spec fn pitems(&self) -> Seq<I::Item>;
+
     #[verifier::external_body]
-    fn find<P: Fn(&Self::Item) -> bool>(&mut self, predicate: P) -> (r: Option<Self::Item>) { unimplemented!() }
+    pub fn peek(&mut self) -> (r: Option<&I::Item>)
+        ensures
+            final(self).pitems() == old(self).pitems(),
+            old(self).pitems().len() == 0 ==> r is None,
+            old(self).pitems().len() > 0 ==> r == Some(&old(self).pitems()[0]),
+    { unimplemented!() }
+
     #[verifier::external_body]
-    fn filter<P: Fn(&Self::Item) -> bool>(self, predicate: P) -> (r: Filter<Self::Item, P>) { unimplemented!() }
+    pub fn next(&mut self) -> (r: Option<I::Item>)
+        ensures
+            old(self).pitems().len() == 0 ==> (r is None && final(self).pitems() == old(self).pitems()),
+            old(self).pitems().len() > 0 ==> (r == Some(old(self).pitems()[0]) && final(self).pitems() == old(self).pitems().drop_first()),
+    { unimplemented!() }
+}
+
+impl<'a, T> Iter<'a, T> {
     #[verifier::external_body]
-    fn any<P: Fn(Self::Item) -> bool>(&mut self, predicate: P) -> (r: bool) { unimplemented!() }
+    pub fn peekable(self) -> (r: Peekable<Iter<'a, T>>)
+        ensures r.pitems() == refs(self@),
+    { unimplemented!() }
+}
+
+// an iterator of token streams under quote's `#(#v)*`
+impl<F> RepToTokens for Map<TokenStream, F> {
+    open spec fn rep_toks(&self) -> Seq<Seq<Tok>> { toks_of(self.mitems()) }
+}
+
+// Vec<TokenStream> under quote's `#(#v)*`
+pub open spec fn toks_of(s: Seq<TokenStream>) -> Seq<Seq<Tok>> { s.map_values(|t: TokenStream| t@) }
+
+impl TokenStream {
+    // FromIterator<TokenStream> for TokenStream (ASSUMED): concatenation of the streams
     #[verifier::external_body]
-    fn map<B, F: Fn(Self::Item) -> B>(self, f: F) -> (r: Map<B, F>) { unimplemented!() }
+    pub fn from_iter<I: IntoIter<Item = TokenStream>>(iter: I) -> (r: TokenStream)
+        ensures r@ == flat(toks_of(iter.into_items())),
+    { unimplemented!() }
+}
+
+impl RepToTokens for Vec<TokenStream> {
+    open spec fn rep_toks(&self) -> Seq<Seq<Tok>> { toks_of(self@) }
 }
 
 } // verus!
-// ---- Option adapters: assumed contracts on core::option (trusted base) ----
+
+macro_rules! vec {
+    () => { Vec::new() };
+}
+
+// proved facts about flat / toks_of (not assumptions)
+pub mod flat_lemmas {
+    use super::*;
+    verus! {
+    pub broadcast proof fn lemma_toks_of_push(s: Seq<TokenStream>, t: TokenStream)
+        ensures #[trigger] toks_of(s.push(t)) == toks_of(s).push(t@),
+    { assert(toks_of(s.push(t)) =~= toks_of(s).push(t@)); }
+
+    pub broadcast proof fn lemma_flat_concat(a: Seq<Seq<Tok>>, b: Seq<Seq<Tok>>)
+        ensures #[trigger] flat(a + b) == flat(a) + flat(b),
+        decreases a.len(),
+    {
+        if a.len() == 0 {
+            assert(a + b =~= b);
+            assert(flat(a) + flat(b) =~= flat(b));
+        } else {
+            assert((a + b).drop_first() =~= a.drop_first() + b);
+            lemma_flat_concat(a.drop_first(), b);
+            assert(flat(a + b) =~= flat(a) + flat(b));
+        }
+    }
+
+    pub broadcast proof fn lemma_flat_push(s: Seq<Seq<Tok>>, x: Seq<Tok>)
+        ensures #[trigger] flat(s.push(x)) == flat(s) + x,
+    {
+        assert(s.push(x) =~= s + seq![x]);
+        lemma_flat_concat(s, seq![x]);
+        assert(seq![x].drop_first() =~= Seq::<Seq<Tok>>::empty());
+        assert(flat(Seq::<Seq<Tok>>::empty()) =~= Seq::<Tok>::empty());
+        assert(seq![x][0] == x);
+        assert(flat(seq![x]) =~= x + flat(seq![x].drop_first()));
+        assert(flat(seq![x]) =~= x);
+    }
+
+    pub broadcast proof fn lemma_flat_singleton(x: Seq<Tok>)
+        ensures #[trigger] flat(seq![x]) == x,
+    {
+        assert(seq![x].drop_first() =~= Seq::<Seq<Tok>>::empty());
+        assert(flat(Seq::<Seq<Tok>>::empty()) =~= Seq::<Tok>::empty());
+        assert(seq![x][0] == x);
+        assert(flat(seq![x]) =~= x + flat(seq![x].drop_first()));
+        assert(flat(seq![x]) =~= x);
+    }
+
+    pub broadcast proof fn lemma_flat_empty()
+        ensures #[trigger] flat(Seq::<Seq<Tok>>::empty()) == Seq::<Tok>::empty(),
+    {}
+
+    pub broadcast proof fn lemma_toks_of_empty()
+        ensures #[trigger] toks_of(Seq::<TokenStream>::empty()) == Seq::<Seq<Tok>>::empty(),
+    { assert(toks_of(Seq::<TokenStream>::empty()) =~= Seq::<Seq<Tok>>::empty()); }
+
+    pub broadcast proof fn lemma_add_empty_left<A>(a: Seq<A>)
+        ensures #[trigger] (Seq::<A>::empty() + a) == a,
+    { assert((Seq::<A>::empty() + a) =~= a); }
+
+    pub broadcast proof fn lemma_add_empty_right<A>(a: Seq<A>)
+        ensures #[trigger] (a + Seq::<A>::empty()) == a,
+    { assert((a + Seq::<A>::empty()) =~= a); }
+
+    pub broadcast proof fn lemma_sflat_singleton<A>(x: Seq<A>)
+        ensures #[trigger] sflat(seq![x]) == x,
+    {
+        assert(seq![x].drop_first() =~= Seq::<Seq<A>>::empty());
+        assert(sflat(Seq::<Seq<A>>::empty()) =~= Seq::<A>::empty());
+        assert(seq![x][0] == x);
+        assert(sflat(seq![x]) =~= x + sflat(seq![x].drop_first()));
+        assert(sflat(seq![x]) =~= x);
+    }
+
+    pub broadcast proof fn lemma_sflat_empty<A>()
+        ensures #[trigger] sflat(Seq::<Seq<A>>::empty()) == Seq::<A>::empty(),
+    {}
+
+    pub broadcast proof fn lemma_map_values_singleton<A, B>(x: A, g: spec_fn(A) -> B)
+        ensures #[trigger] seq![x].map_values(g) == seq![g(x)],
+    { assert(seq![x].map_values(g) =~= seq![g(x)]); }
+
+    pub broadcast proof fn lemma_map_values_empty<A, B>(g: spec_fn(A) -> B)
+        ensures #[trigger] Seq::<A>::empty().map_values(g) == Seq::<B>::empty(),
+    { assert(Seq::<A>::empty().map_values(g) =~= Seq::<B>::empty()); }
+
+    // pointwise equal views: the token sequences of a list of streams
+    pub broadcast proof fn lemma_toks_of_pointwise(s: Seq<TokenStream>, t: Seq<Seq<Tok>>)
+        requires s.len() == t.len(), forall|i: int| 0 <= i < s.len() ==> (#[trigger] s[i])@ == t[i],
+        ensures #![trigger toks_of(s), flat(t)] toks_of(s) == t,
+    { assert(toks_of(s) =~= t); }
+
+    pub broadcast proof fn lemma_toks_of_concat(a: Seq<TokenStream>, b: Seq<TokenStream>)
+        ensures #[trigger] toks_of(a + b) == toks_of(a) + toks_of(b),
+    { assert(toks_of(a + b) =~= toks_of(a) + toks_of(b)); }
+
+    pub broadcast proof fn lemma_sfilter_satisfies<A>(s: Seq<A>, q: spec_fn(A) -> bool, i: int)
+        requires 0 <= i < sfilter(s, q).len(),
+        ensures q(#[trigger] sfilter(s, q)[i]),
+        decreases s.len(),
+    {
+        if s.len() > 0 {
+            let rest = sfilter(s.drop_first(), q);
+            if q(s[0]) {
+                assert(sfilter(s, q) == seq![s[0]] + rest);
+                if i > 0 {
+                    assert(sfilter(s, q)[i] == rest[i - 1]);
+                    lemma_sfilter_satisfies(s.drop_first(), q, i - 1);
+                }
+            } else {
+                lemma_sfilter_satisfies(s.drop_first(), q, i);
+            }
+        }
+    }
+
+    pub broadcast proof fn lemma_sfilter_member<A>(s: Seq<A>, q: spec_fn(A) -> bool, i: int)
+        requires 0 <= i < sfilter(s, q).len(),
+        ensures exists|j: int| 0 <= j < s.len() && s[j] == #[trigger] sfilter(s, q)[i],
+        decreases s.len(),
+    {
+        if s.len() > 0 {
+            let rest = sfilter(s.drop_first(), q);
+            if q(s[0]) {
+                assert(sfilter(s, q) == seq![s[0]] + rest);
+                if i > 0 {
+                    assert(sfilter(s, q)[i] == rest[i - 1]);
+                    lemma_sfilter_member(s.drop_first(), q, i - 1);
+                    let j = choose|j: int| 0 <= j < s.drop_first().len() && s.drop_first()[j] == rest[i - 1];
+                    assert(s[j + 1] == sfilter(s, q)[i]);
+                } else {
+                    assert(s[0] == sfilter(s, q)[0]);
+                }
+            } else {
+                lemma_sfilter_member(s.drop_first(), q, i);
+                let j = choose|j: int| 0 <= j < s.drop_first().len() && s.drop_first()[j] == rest[i];
+                assert(s[j + 1] == sfilter(s, q)[i]);
+            }
+        }
+    }
+
+    pub broadcast group group_seq { lemma_sfilter_satisfies, lemma_sfilter_member, lemma_add_empty_left, lemma_add_empty_right, lemma_sflat_singleton, lemma_sflat_empty, lemma_map_values_singleton, lemma_map_values_empty }
+
+    pub broadcast group group_flat { lemma_toks_of_pointwise, lemma_toks_of_concat, lemma_toks_of_push, lemma_flat_concat, lemma_flat_push, lemma_flat_singleton, lemma_flat_empty, lemma_toks_of_empty }
+    }
+}
+
+// `std::iter::empty()` as written in the real code resolves here (the model's iterators, not core::iter)
+pub mod std {
+    pub mod iter {
+        use super::super::*;
+        verus! {
+        #[verifier::external_body]
+        pub fn empty<T>() -> (r: Empty<T>) { unimplemented!() }
+        }
+    }
+}
+
+// MODELLING CHOICE: a TokenStream value is its token sequence (specs never observe anything else of it)
+pub mod ts_axioms {
+    use super::*;
+    verus! {
+    pub broadcast axiom fn axiom_token_stream_is_its_tokens(a: TokenStream, b: TokenStream)
+        ensures (#[trigger] a@ == #[trigger] b@) ==> a == b;
+    }
+}
+// ---- Option adapters: assumed contracts on ::core::option (trusted base) ----
 verus! {
 
-pub assume_specification<T, F> [core::option::Option::<T>::or_else] (o: Option<T>, f: F) -> (r: Option<T>)
-    where F: FnOnce() -> Option<T> + core::marker::Destruct, T: core::marker::Destruct,
+pub assume_specification<T, F> [::core::option::Option::<T>::or_else] (o: Option<T>, f: F) -> (r: Option<T>)
+    where F: FnOnce() -> Option<T> + ::core::marker::Destruct, T: ::core::marker::Destruct,
     requires o is None ==> f.requires(()),
     ensures
         o is Some ==> r == o,
@@ -1447,15 +1750,15 @@ pub assume_specification<T, F> [core::option::Option::<T>::or_else] (o: Option<T
 } // verus!
 
 verus! {
-pub assume_specification<T, U, F> [core::option::Option::<T>::map_or] (o: Option<T>, default: U, f: F) -> (r: U)
-    where F: FnOnce(T) -> U + core::marker::Destruct, T: core::marker::Destruct, U: core::marker::Destruct,
+pub assume_specification<T, U, F> [::core::option::Option::<T>::map_or] (o: Option<T>, default: U, f: F) -> (r: U)
+    where F: FnOnce(T) -> U + ::core::marker::Destruct, T: ::core::marker::Destruct, U: ::core::marker::Destruct,
     requires o is Some ==> f.requires((o->0,)),
     ensures
         o is None ==> r == default,
         o is Some ==> f.ensures((o->0,), r);
 
-pub assume_specification<T, F> [core::option::Option::<T>::is_some_and] (o: Option<T>, f: F) -> (r: bool)
-    where F: FnOnce(T) -> bool + core::marker::Destruct, T: core::marker::Destruct,
+pub assume_specification<T, F> [::core::option::Option::<T>::is_some_and] (o: Option<T>, f: F) -> (r: bool)
+    where F: FnOnce(T) -> bool + ::core::marker::Destruct, T: ::core::marker::Destruct,
     requires o is Some ==> f.requires((o->0,)),
     ensures
         o is None ==> !r,
@@ -1463,7 +1766,7 @@ pub assume_specification<T, F> [core::option::Option::<T>::is_some_and] (o: Opti
 } // verus!
 // ---- strings, errors, parsing: assumed contracts (trusted base) ----
 pub mod str_axioms {
-    use vstd::prelude::*;
+    use ::vstd::prelude::*;
     verus! {
     // pattern matching on &str uses str equality; String deref uses views.  One axiom relates the two.
     pub broadcast axiom fn axiom_str_eq_is_view_eq(a: &str, b: &str)
@@ -1474,9 +1777,9 @@ pub mod str_axioms {
 verus! {
 
 #[verifier::external_body]
-pub struct Error { _p: core::marker::PhantomData<()> }
+pub struct Error { _p: ::core::marker::PhantomData<()> }
 
-pub type Result<T> = core::result::Result<T, Error>;
+pub type Result<T> = ::core::result::Result<T, Error>;
 
 impl Ident {
     #[verifier::external_body]
@@ -1500,7 +1803,7 @@ impl TokenStream {
     { unimplemented!() }
 }
 
-pub assume_specification [<std::string::String as std::convert::AsRef<str>>::as_ref] (s: &std::string::String) -> (r: &str)
+pub assume_specification [<::std::string::String as ::std::convert::AsRef<str>>::as_ref] (s: &::std::string::String) -> (r: &str)
     ensures r@ == s@;
 
 // the result of parsing a token stream is a function of the tokens (whatever syn does, it does it deterministically)
@@ -1849,6 +2152,20 @@ struct QuoteTraitParams<'a> {
     pub where_clause: Option<TokenStream>,
     pub r: Option<TokenStream>,
 }
+struct FieldContainer<'a> {
+    gr_idx: usize,
+    path: String,
+    field_data: FieldData<'a>
+}
+enum FieldData<'a> {
+    Field(&'a Field),
+    GhostData(&'a GhostData),
+    ParentChildField(&'a Field, &'a ParentChildField),
+}
+enum VariantData<'a> {
+    Variant(&'a Variant),
+    GhostData(&'a GhostData),
+}
 // ---- spec vocabulary shared by all units (pure spec; nothing here is assumed) ----
 
 spec fn k_is_from(k: Kind) -> bool { k is FromOwned || k is FromRef }
@@ -1942,7 +2259,189 @@ spec fn cview<'a>(c: ImplContext<'a>) -> CView {
 }
 // ASSUMED (unreached callees), as functions of the views:
 uninterp spec fn spec_struct_init(input: SView, ctx: CView) -> Toks;          // struct_init_block
-uninterp spec fn spec_variant_destruct(input: SView, ctx: CView) -> Toks;     // variant_destruct_block
+
+// vars(a: {expr}, ..): one `let name = expr;` per binding, in declaration order (C08)
+spec fn let_binding<'a>(ctx: ImplContext<'a>) -> spec_fn(&'a InitData) -> Toks {
+    |x: &'a InitData| id("let") + x.ident.toks() + p("=") + spec_action(x.action@, nil(), ctx) + p(";")
+}
+spec fn spec_pre_init<'a>(ctx: ImplContext<'a>) -> Option<Toks> {
+    match ctx.struct_attr.init_data {
+        Some(d) => Some(flat(refs(d.pseq()).map_values(let_binding(ctx)))),
+        None => None,
+    }
+}
+} // verus!
+// ---- #[derive(Clone)] / #[derive(Default)] of the real types: ASSUMED to return an equal value / empty lists ----
+// (the derive attributes are dropped at extraction; these stubs stand for what rustc's derive generates)
+macro_rules! assumed_derive_clone {
+    ($($t:ty),*) => { verus! { $(
+        impl Clone for $t {
+            #[verifier::external_body]
+            fn clone(&self) -> (r: Self)
+                ensures r == *self,
+            { unimplemented!() }
+        }
+    )* } };
+}
+assumed_derive_clone!(TypePath, MemberRepeatAttr, MemberAttrs, TraitAttr, TraitAttrCore, InitData, GhostsAttr, StructGhostAttrCore, GhostData,
+    GhostIdent, ChildPath, MemberAttr, MemberAttrCore, ParentAttr, ParentChildField, ParentChildFieldAttr, GhostAttr, FieldGhostAttrCore,
+    ChildAttr, AsAttr, LitAttr, PatAttr, VariantTypeHintAttr, MemberInstruction, Field);
+
+verus! {
+// #[derive(Default)] for DataTypeAttrs: ASSUMED to produce empty lists
+pub closed spec fn dta_all_empty(r: DataTypeAttrs) -> bool {
+    r.attrs@ == Seq::<TraitAttr>::empty() && r.ghosts_attrs@ == Seq::<GhostsAttr>::empty() && r.where_attrs@ == Seq::<WhereAttr>::empty()
+    && r.child_parents_attrs@ == Seq::<ChildParentsAttr>::empty() && r.error_instrs@ == Seq::<DataTypeInstruction>::empty()
+}
+impl Default for DataTypeAttrs {
+    #[verifier::external_body]
+    fn default() -> (r: Self)
+        ensures dta_all_empty(r),
+    { unimplemented!() }
+}
+impl Default for Generics {
+    #[verifier::external_body]
+    fn default() -> (r: Self) { unimplemented!() }
+}
+}
+verus! {
+// ---- spec of the lookup layer (C05 C06): "dedicated to the counterpart, else default", first match in list order ----
+
+spec fn ded_then_default<T>(s: Seq<T>, ded: spec_fn(T) -> bool, def: spec_fn(T) -> bool) -> Option<T> {
+    if first(s, ded) is Some { first(s, ded) } else { first(s, def) }
+}
+
+// container_ty test of a list entry: dedicated to `ty` / default
+spec fn ct_ok(c: Option<TypePath>, ty: TypePath, ded: bool) -> bool {
+    if ded { dedicated_to(c, ty) } else { c is None }
+}
+
+spec fn p_child<'a>(ty: TypePath, ded: bool) -> spec_fn(&'a ChildAttr) -> bool { |x: &ChildAttr| ct_ok(x.container_ty, ty, ded) }
+spec fn p_lit<'a>(ty: TypePath, ded: bool) -> spec_fn(&'a LitAttr) -> bool { |x: &LitAttr| ct_ok(x.container_ty, ty, ded) }
+spec fn p_pat<'a>(ty: TypePath, ded: bool) -> spec_fn(&'a PatAttr) -> bool { |x: &PatAttr| ct_ok(x.container_ty, ty, ded) }
+spec fn p_hint<'a>(ty: TypePath, ded: bool) -> spec_fn(&'a VariantTypeHintAttr) -> bool { |x: &VariantTypeHintAttr| ct_ok(x.container_ty, ty, ded) }
+spec fn p_where<'a>(ty: TypePath, ded: bool) -> spec_fn(&'a WhereAttr) -> bool { |x: &WhereAttr| ct_ok(x.container_ty, ty, ded) }
+spec fn p_child_parents<'a>(ty: TypePath, ded: bool) -> spec_fn(&'a ChildParentsAttr) -> bool { |x: &ChildParentsAttr| ct_ok(x.container_ty, ty, ded) }
+spec fn p_ghost<'a>(ty: TypePath, k: Kind, ded: bool) -> spec_fn(&'a GhostAttr) -> bool {
+    |x: &GhostAttr| appl(x.applicable_to, k) && ct_ok(x.attr.container_ty, ty, ded)
+}
+spec fn p_ghosts<'a>(ty: TypePath, k: Kind, ded: bool) -> spec_fn(&'a GhostsAttr) -> bool {
+    |x: &GhostsAttr| appl(x.applicable_to, k) && ct_ok(x.attr.container_ty, ty, ded)
+}
+spec fn p_pparent<'a>(ty: TypePath, ded: bool) -> spec_fn(&'a ParentAttr) -> bool {
+    |x: &ParentAttr| ct_ok(x.container_ty, ty, ded) && x.child_fields is Some
+}
+// entries of one (kind, fallibility)
+spec fn p_kind<'a>(k: Kind, fallible: bool) -> spec_fn(&'a MemberAttr) -> bool {
+    |x: &MemberAttr| x.fallible == fallible && appl(x.applicable_to, k)
+}
+spec fn p_tkind<'a>(k: Kind, fallible: bool) -> spec_fn(&'a TraitAttr) -> bool {
+    |x: &TraitAttr| x.fallible == fallible && appl(x.applicable_to, k)
+}
+spec fn p_mattr<'a>(ty: TypePath, ded: bool) -> spec_fn(&'a MemberAttr) -> bool { |x: &MemberAttr| ct_ok(x.attr.container_ty, ty, ded) }
+spec fn p_mcore<'a>(ty: TypePath, ded: bool) -> spec_fn(&'a MemberAttrCore) -> bool { |x: &MemberAttrCore| ct_ok(x.container_ty, ty, ded) }
+spec fn core_of<'a>() -> spec_fn(&'a MemberAttr) -> &'a MemberAttrCore { |x: &'a MemberAttr| &x.attr }
+spec fn tcore_of<'a>() -> spec_fn(&'a TraitAttr) -> &'a TraitAttrCore { |x: &'a TraitAttr| &x.core }
+
+spec fn spec_child<'a>(a: &'a MemberAttrs, ty: TypePath) -> Option<&'a ChildAttr> {
+    ded_then_default(refs(a.child_attrs@), p_child(ty, true), p_child(ty, false))
+}
+spec fn spec_lit<'a>(a: &'a MemberAttrs, ty: TypePath) -> Option<&'a LitAttr> {
+    ded_then_default(refs(a.lit_attrs@), p_lit(ty, true), p_lit(ty, false))
+}
+spec fn spec_pat<'a>(a: &'a MemberAttrs, ty: TypePath) -> Option<&'a PatAttr> {
+    ded_then_default(refs(a.pat_attrs@), p_pat(ty, true), p_pat(ty, false))
+}
+spec fn spec_type_hint<'a>(a: &'a MemberAttrs, ty: TypePath) -> Option<&'a VariantTypeHintAttr> {
+    ded_then_default(refs(a.type_hint_attrs@), p_hint(ty, true), p_hint(ty, false))
+}
+spec fn spec_ghost<'a>(a: &'a MemberAttrs, ty: TypePath, k: Kind) -> Option<&'a FieldGhostAttrCore> {
+    match ded_then_default(refs(a.ghost_attrs@), p_ghost(ty, k, true), p_ghost(ty, k, false)) {
+        Some(g) => Some(&g.attr),
+        None => None,
+    }
+}
+spec fn spec_pparent<'a>(a: &'a MemberAttrs, ty: TypePath) -> Option<&'a ParentAttr> {
+    ded_then_default(refs(a.parent_attrs@), p_pparent(ty, true), p_pparent(ty, false))
+}
+spec fn q_parent<'a>(ty: TypePath) -> spec_fn(&'a ParentAttr) -> bool {
+    |x: &ParentAttr| x.container_ty is None || ty_eq(x.container_ty->0, ty)
+}
+spec fn q_bare_parent<'a>(ty: TypePath) -> spec_fn(&'a ParentAttr) -> bool {
+    |x: &ParentAttr| x.child_fields is None && (x.container_ty is None || ty_eq(x.container_ty->0, ty))
+}
+spec fn spec_has_parent_attr(a: &MemberAttrs, ty: TypePath) -> bool { first(refs(a.parent_attrs@), q_parent(ty)) is Some }
+spec fn spec_has_bare_parent_attr(a: &MemberAttrs, ty: TypePath) -> bool { first(refs(a.parent_attrs@), q_bare_parent(ty)) is Some }
+spec fn spec_has_parent(a: &MemberAttrs, ty: TypePath) -> bool {
+    exists|i: int| 0 <= i < a.parent_attrs@.len() && (#[trigger] a.parent_attrs@[i].container_ty is None || ty_eq(a.parent_attrs@[i].container_ty->0, ty))
+}
+spec fn spec_has_bare_parent(a: &MemberAttrs, ty: TypePath) -> bool {
+    exists|i: int| 0 <= i < a.parent_attrs@.len() && #[trigger] a.parent_attrs@[i].child_fields is None
+        && (a.parent_attrs@[i].container_ty is None || ty_eq(a.parent_attrs@[i].container_ty->0, ty))
+}
+spec fn spec_ghosts_attr<'a>(a: &'a DataTypeAttrs, ty: TypePath, k: Kind) -> Option<&'a StructGhostAttrCore> {
+    match ded_then_default(refs(a.ghosts_attrs@), p_ghosts(ty, k, true), p_ghosts(ty, k, false)) {
+        Some(g) => Some(&g.attr),
+        None => None,
+    }
+}
+spec fn spec_where<'a>(a: &'a DataTypeAttrs, ty: TypePath) -> Option<&'a WhereAttr> {
+    ded_then_default(refs(a.where_attrs@), p_where(ty, true), p_where(ty, false))
+}
+spec fn spec_child_parents<'a>(a: &'a DataTypeAttrs, ty: TypePath) -> Option<&'a ChildParentsAttr> {
+    ded_then_default(refs(a.child_parents_attrs@), p_child_parents(ty, true), p_child_parents(ty, false))
+}
+
+// member instructions of exactly (k, fallible): dedicated to ty, else default
+spec fn spec_field_attr<'a>(a: &'a MemberAttrs, k: Kind, fallible: bool, ty: TypePath) -> Option<&'a MemberAttr> {
+    ded_then_default(sfilter(refs(a.attrs@), p_kind(k, fallible)), p_mattr(ty, true), p_mattr(ty, false))
+}
+spec fn spec_field_core_v<'a>(attrs: Seq<MemberAttr>, k: Kind, fallible: bool, ty: TypePath) -> Option<&'a MemberAttrCore> {
+    ded_then_default(sfilter(refs(attrs), p_kind(k, fallible)).map_values(core_of()), p_mcore(ty, true), p_mcore(ty, false))
+}
+spec fn spec_field_core<'a>(a: &'a MemberAttrs, k: Kind, fallible: bool, ty: TypePath) -> Option<&'a MemberAttrCore> {
+    spec_field_core_v(a.attrs@, k, fallible, ty)
+}
+
+spec fn into_of(k: Kind) -> Kind {
+    match k { Kind::OwnedIntoExisting => Kind::OwnedInto, Kind::RefIntoExisting => Kind::RefInto, other => other }
+}
+
+spec fn or2<T>(a: Option<T>, b: Option<T>) -> Option<T> { if a is Some { a } else { b } }
+
+// C05: exact kind -> (fallible) infallible of that kind -> (into_existing) the corresponding into, exact then infallible
+spec fn spec_field_chain_v<'a>(attrs: Seq<MemberAttr>, k: Kind, fallible: bool, ty: TypePath) -> Option<&'a MemberAttrCore> {
+    let l1 = spec_field_core_v(attrs, k, fallible, ty);
+    let l2 = if fallible { spec_field_core_v(attrs, k, false, ty) } else { None };
+    let l3 = if k_is_into_existing(k) { spec_field_core_v(attrs, into_of(k), fallible, ty) } else { None };
+    let l4 = if k_is_into_existing(k) && fallible { spec_field_core_v(attrs, into_of(k), false, ty) } else { None };
+    or2(l1, or2(l2, or2(l3, l4)))
+}
+spec fn spec_field_chain<'a>(a: &'a MemberAttrs, k: Kind, fallible: bool, ty: TypePath) -> Option<&'a MemberAttrCore> {
+    spec_field_chain_v(a.attrs@, k, fallible, ty)
+}
+
+// C05: an applicable #[ghost] beats them all
+spec fn spec_applicable<'a>(a: &'a MemberAttrs, k: Kind, fallible: bool, ty: TypePath) -> Option<ApplicableAttr<'a>> {
+    match spec_ghost(a, ty, k) {
+        Some(g) => Some(ApplicableAttr::Ghost(g)),
+        None => match spec_field_chain(a, k, fallible, ty) {
+            Some(c) => Some(ApplicableAttr::Field(c)),
+            None => None,
+        },
+    }
+}
+
+// validation's view of the chain (no fallible -> infallible step)
+spec fn spec_applicable_field<'a>(a: &'a MemberAttrs, k: Kind, fallible: bool, ty: TypePath) -> Option<&'a MemberAttr> {
+    or2(spec_field_attr(a, k, fallible, ty), if k_is_into_existing(k) { spec_field_attr(a, into_of(k), fallible, ty) } else { None })
+}
+
+// #[parent(..)] child field instructions: first applicable, into_existing falls back to into
+spec fn p_pcf<'a>(k: Kind) -> spec_fn(&'a ParentChildFieldAttr) -> bool { |x: &ParentChildFieldAttr| appl(x.applicable_to, k) }
+spec fn spec_pcf_for_kind<'a>(p: &'a ParentChildField, k: Kind) -> Option<&'a ParentChildFieldAttr> {
+    or2(first(refs(p.attrs@), p_pcf(k)), if k_is_into_existing(k) { first(refs(p.attrs@), p_pcf(into_of(k))) } else { None })
+}
 
 // =====================================================================================================
 // U4 — trait skeletons, body wrappers, quote_action, render_parent
@@ -2521,8 +3020,7 @@ fn main_code_block_ok(ctx: &ImplContext) -> (r: TokenStream)
 
 
 // ---------------------------------------------------------------- dispatch: (kind, fallible) -> skeleton (C04 C07)
-// ASSUMED (unreached callees): vars(...) prelude and bare-#[parent] pouring statements
-uninterp spec fn spec_pre_init<'a>(ctx: ImplContext<'a>) -> Option<Toks>;
+// ASSUMED (unreached callee): bare-#[parent] pouring statements
 uninterp spec fn spec_post_init<'a>(input: DataType<'a>, ctx: ImplContext<'a>) -> Option<Toks>;
 
 #[verifier::external_body]
@@ -2582,6 +3080,178 @@ fn quote_trait(input: &DataType, ctx: &mut ImplContext) -> (r: TokenStream)
         (Kind::OwnedIntoExisting, false) | (Kind::RefIntoExisting, false) => quote_into_existing_trait(input, ctx, pre_init, main_code_block(ctx), post_init),
         (Kind::OwnedIntoExisting, true) | (Kind::RefIntoExisting, true) => quote_try_into_existing_trait(input, ctx, pre_init, main_code_block(ctx), post_init),
     }
+
+}
+
+
+// ---------------------------------------------------------------- data_type_impl: one impl per (kind, fallibility, instruction) (C04)
+impl<'a> DataTypeAttrs {
+#[verifier::external_body]
+ fn iter_for_kind_core(&'a self, kind: &'a Kind, fallible: bool) -> (r: impl Iterator<Item = &TraitAttrCore>)
+    ensures r.items() == sfilter(refs(self.attrs@), p_tkind(*kind, fallible)).map_values(tcore_of()),
+{ let e: ::core::option::Option<Empty<&TraitAttrCore>> = ::core::option::Option::None; e.unwrap() }
+}
+
+impl<'a> DataType<'a> {
+ fn get_ident(&'a self) -> (r: &Ident)
+    ensures *r == (match *self { DataType::Struct(s) => *s.ident, DataType::Enum(e) => *e.ident }), // #own-name
+{
+
+        match self {
+            DataType::Struct(s) => s.ident,
+            DataType::Enum(e) => e.ident,
+        }
+    
+}
+}
+impl<'a> DataType<'a> {
+ fn get_attrs(&'a self) -> (r: &'a DataTypeAttrs)
+    ensures *r == dt_attrs(*self), // #own-attrs
+{
+
+        match self {
+            DataType::Struct(s) => &s.attrs,
+            DataType::Enum(e) => &e.attrs,
+        }
+    
+}
+}
+
+spec fn dt_ident<'a>(d: DataType<'a>) -> Ident { match d { DataType::Struct(s) => *s.ident, DataType::Enum(e) => *e.ident } }
+spec fn dt_impl_type<'a>(d: DataType<'a>) -> ImplType { match d { DataType::Struct(_) => ImplType::Struct, DataType::Enum(_) => ImplType::Enum } }
+
+// the conversion context of one requested impl: From kinds build the deriving type from the counterpart, the others the reverse
+spec fn mk_ctx<'a>(input: &'a DataType<'a>, c: &'a TraitAttrCore, k: Kind, f: bool, ty: &'a TokenStream) -> ImplContext<'a> {
+    ImplContext {
+        input, impl_type: dt_impl_type(*input), struct_attr: c, kind: k,
+        dst_ty: if k_is_from(k) { ty } else { &c.ty.path },
+        src_ty: if k_is_from(k) { &c.ty.path } else { ty },
+        has_post_init: false, fallible: f,
+    }
+}
+spec fn mk_ctx_fn<'a>(input: &'a DataType<'a>, k: Kind, f: bool, ty: &'a TokenStream) -> spec_fn(&'a TraitAttrCore) -> ImplContext<'a> {
+    |c: &'a TraitAttrCore| mk_ctx(input, c, k, f, ty)
+}
+// the instructions requesting (k, f), in the order written
+spec fn ctxs_for<'a>(input: &'a DataType<'a>, k: Kind, f: bool, ty: &'a TokenStream) -> Seq<ImplContext<'a>> {
+    sfilter(refs(dt_attrs(*input).attrs@), p_tkind(k, f)).map_values(tcore_of()).map_values(mk_ctx_fn(input, k, f, ty))
+}
+spec fn all_ctxs<'a>(input: &'a DataType<'a>, ty: &'a TokenStream) -> Seq<ImplContext<'a>> {
+    Seq::<ImplContext>::empty()
+    + ctxs_for(input, Kind::FromOwned, false, ty) + ctxs_for(input, Kind::FromOwned, true, ty)
+    + ctxs_for(input, Kind::FromRef, false, ty) + ctxs_for(input, Kind::FromRef, true, ty)
+    + ctxs_for(input, Kind::OwnedInto, false, ty) + ctxs_for(input, Kind::OwnedInto, true, ty)
+    + ctxs_for(input, Kind::RefInto, false, ty) + ctxs_for(input, Kind::RefInto, true, ty)
+    + ctxs_for(input, Kind::OwnedIntoExisting, false, ty) + ctxs_for(input, Kind::OwnedIntoExisting, true, ty)
+    + ctxs_for(input, Kind::RefIntoExisting, false, ty) + ctxs_for(input, Kind::RefIntoExisting, true, ty)
+}
+spec fn impl_of<'a>(input: &'a DataType<'a>) -> spec_fn(ImplContext<'a>) -> Toks { |c: ImplContext<'a>| spec_impl(*input, c) }
+spec fn ctx_ok<'a>(c: ImplContext<'a>) -> bool { c.fallible ==> c.struct_attr.err_ty is Some }
+
+#[verifier::rlimit(2000)]
+fn data_type_impl(input: DataType) -> (r: TokenStream)
+    requires
+        forall|j: int| 0 <= j < dt_attrs(input).attrs@.len() ==> ((#[trigger] dt_attrs(input).attrs@[j]).fallible ==> dt_attrs(input).attrs@[j].core.err_ty is Some), // #fallible-instructions-declare-an-error-type [C16]
+    ensures
+        forall|ty: TokenStream| ty@ == dt_ident(input).toks() ==> r@ == flat(#[trigger] all_ctxs(&input, &ty).map_values(impl_of(&input))), // #one-impl-per-requested-kind-fallibility-instruction
+{
+broadcast use {flat_lemmas::group_flat, flat_lemmas::group_seq, ts_axioms::axiom_token_stream_is_its_tokens};
+
+    let ty = input.get_ident().to_token_stream();
+    let attrs = input.get_attrs();
+
+    let impl_type = match input {
+        DataType::Struct(_) => ImplType::Struct,
+        DataType::Enum(_) => ImplType::Enum,
+    };
+
+    let impls = std::iter::empty().chain(attrs.iter_for_kind_core(&Kind::FromOwned, false).map(    |struct_attr: &TraitAttrCore| -> (r: ImplContext) ensures r == mk_ctx(&input, struct_attr, Kind::FromOwned, false, &ty)  {ImplContext {
+        input: &input, impl_type, struct_attr,
+        kind: Kind::FromOwned,
+        dst_ty: &ty,
+        src_ty: &struct_attr.ty.path,
+        has_post_init: false,
+        fallible: false,
+    }} )).chain(attrs.iter_for_kind_core(&Kind::FromOwned, true).map(    |struct_attr: &TraitAttrCore| -> (r: ImplContext) ensures r == mk_ctx(&input, struct_attr, Kind::FromOwned, true, &ty)  {ImplContext {
+        input: &input, impl_type, struct_attr,
+        kind: Kind::FromOwned,
+        dst_ty: &ty,
+        src_ty: &struct_attr.ty.path,
+        has_post_init: false,
+        fallible: true,
+    }} )).chain(attrs.iter_for_kind_core(&Kind::FromRef, false).map(    |struct_attr: &TraitAttrCore| -> (r: ImplContext) ensures r == mk_ctx(&input, struct_attr, Kind::FromRef, false, &ty)  {ImplContext {
+        input: &input, impl_type, struct_attr,
+        kind: Kind::FromRef,
+        dst_ty: &ty,
+        src_ty: &struct_attr.ty.path,
+        has_post_init: false,
+        fallible: false,
+    }} )).chain(attrs.iter_for_kind_core(&Kind::FromRef, true).map(    |struct_attr: &TraitAttrCore| -> (r: ImplContext) ensures r == mk_ctx(&input, struct_attr, Kind::FromRef, true, &ty)  {ImplContext {
+        input: &input, impl_type, struct_attr,
+        kind: Kind::FromRef,
+        dst_ty: &ty,
+        src_ty: &struct_attr.ty.path,
+        has_post_init: false,
+        fallible: true,
+    }} )).chain(attrs.iter_for_kind_core(&Kind::OwnedInto, false).map(    |struct_attr: &TraitAttrCore| -> (r: ImplContext) ensures r == mk_ctx(&input, struct_attr, Kind::OwnedInto, false, &ty)  {ImplContext {
+        input: &input, impl_type, struct_attr,
+        kind: Kind::OwnedInto,
+        dst_ty: &struct_attr.ty.path,
+        src_ty: &ty,
+        has_post_init: false,
+        fallible: false,
+    }} )).chain(attrs.iter_for_kind_core(&Kind::OwnedInto, true).map(    |struct_attr: &TraitAttrCore| -> (r: ImplContext) ensures r == mk_ctx(&input, struct_attr, Kind::OwnedInto, true, &ty)  {ImplContext {
+        input: &input, impl_type, struct_attr,
+        kind: Kind::OwnedInto,
+        dst_ty: &struct_attr.ty.path,
+        src_ty: &ty,
+        has_post_init: false,
+        fallible: true,
+    }} )).chain(attrs.iter_for_kind_core(&Kind::RefInto, false).map(    |struct_attr: &TraitAttrCore| -> (r: ImplContext) ensures r == mk_ctx(&input, struct_attr, Kind::RefInto, false, &ty)  {ImplContext {
+        input: &input, impl_type, struct_attr,
+        kind: Kind::RefInto,
+        dst_ty: &struct_attr.ty.path,
+        src_ty: &ty,
+        has_post_init: false,
+        fallible: false,
+    }} )).chain(attrs.iter_for_kind_core(&Kind::RefInto, true).map(    |struct_attr: &TraitAttrCore| -> (r: ImplContext) ensures r == mk_ctx(&input, struct_attr, Kind::RefInto, true, &ty)  {ImplContext {
+        input: &input, impl_type, struct_attr,
+        kind: Kind::RefInto,
+        dst_ty: &struct_attr.ty.path,
+        src_ty: &ty,
+        has_post_init: false,
+        fallible: true,
+    }} )).chain(attrs.iter_for_kind_core(&Kind::OwnedIntoExisting, false).map(    |struct_attr: &TraitAttrCore| -> (r: ImplContext) ensures r == mk_ctx(&input, struct_attr, Kind::OwnedIntoExisting, false, &ty)  {ImplContext {
+        input: &input, impl_type, struct_attr,
+        kind: Kind::OwnedIntoExisting,
+        dst_ty: &struct_attr.ty.path,
+        src_ty: &ty,
+        has_post_init: false,
+        fallible: false,
+    }} )).chain(attrs.iter_for_kind_core(&Kind::OwnedIntoExisting, true).map(    |struct_attr: &TraitAttrCore| -> (r: ImplContext) ensures r == mk_ctx(&input, struct_attr, Kind::OwnedIntoExisting, true, &ty)  {ImplContext {
+        input: &input, impl_type, struct_attr,
+        kind: Kind::OwnedIntoExisting,
+        dst_ty: &struct_attr.ty.path,
+        src_ty: &ty,
+        has_post_init: false,
+        fallible: true,
+    }} )).chain(attrs.iter_for_kind_core(&Kind::RefIntoExisting, false).map(    |struct_attr: &TraitAttrCore| -> (r: ImplContext) ensures r == mk_ctx(&input, struct_attr, Kind::RefIntoExisting, false, &ty)  {ImplContext {
+        input: &input, impl_type, struct_attr,
+        kind: Kind::RefIntoExisting,
+        dst_ty: &struct_attr.ty.path,
+        src_ty: &ty,
+        has_post_init: false,
+        fallible: false,
+    }} )).chain(attrs.iter_for_kind_core(&Kind::RefIntoExisting, true).map(    |struct_attr: &TraitAttrCore| -> (r: ImplContext) ensures r == mk_ctx(&input, struct_attr, Kind::RefIntoExisting, true, &ty)  {ImplContext {
+        input: &input, impl_type, struct_attr,
+        kind: Kind::RefIntoExisting,
+        dst_ty: &struct_attr.ty.path,
+        src_ty: &ty,
+        has_post_init: false,
+        fallible: true,
+    }} )).map(    |mut ctx: ImplContext| -> (r: TokenStream) requires ctx_ok(ctx) ensures r@ == spec_impl(input, ctx)  {quote_trait(&input, &mut ctx)} );
+
+    quote! { #(#impls)* }
 
 }
 
